@@ -92,6 +92,16 @@ func ruleScale(c *Ctx) {
 			continue
 		}
 		mc, ok := strip(wrapArg).(*ssa.MakeClosure)
+		if fc, isCall := strip(wrapArg).(*ssa.Call); !ok && isCall {
+			// a factory: an unexported function whose only return is a closure literal; its parameters are
+			// read in the context of this call
+			if g := calleeOf(fc); g != nil && isRepoFunc(g) && len(returnsOf(g)) == 1 {
+				if m2, ok2 := strip(returnsOf(g)[0].Results[0]).(*ssa.MakeClosure); ok2 {
+					mc, ok = m2, true
+					n.Ctx = append(append([]ssa.CallInstruction{}, n.Ctx...), fc)
+				}
+			}
+		}
 		if !ok {
 			c.Undecided(R4, name+"/wrap", call.Pos(), "wrapper function is not a closure literal or method value")
 			continue
@@ -135,11 +145,12 @@ func ruleScale(c *Ctx) {
 			}
 			atRets++
 			c.expectPoly(R4, name+"/at-receiver", at.Pos(), n, at.Common().Value, "bc")
-			c.expectPoly(R4, name+"/at-x", at.Pos(), n, at.Common().Args[0], tmpl("{sx}", m))
+			rc := n.ReachCond(cl, nil, ret.Block())
+			c.expectPolyUnder(R4, name+"/at-x", at.Pos(), n, cl, rc, at.Common().Args[0], tmpl("{sx}", m))
 			if dim == 1 {
-				c.expectPoly(R4, name+"/at-y", at.Pos(), n, at.Common().Args[1], "0")
+				c.expectPolyUnder(R4, name+"/at-y", at.Pos(), n, cl, rc, at.Common().Args[1], "0")
 			} else {
-				c.expectPoly(R4, name+"/at-y", at.Pos(), n, at.Common().Args[1], tmpl("{sy}", m))
+				c.expectPolyUnder(R4, name+"/at-y", at.Pos(), n, cl, rc, at.Common().Args[1], tmpl("{sy}", m))
 			}
 		}
 		c.Check(R4, name+"/at-returns", cl.Pos(), atRets == 1, "exactly one bc.At return", fmt.Sprint(atRets))
